@@ -437,6 +437,103 @@ def parseCStr (env : NumEnv) (s : Bytes) : Option JVal :=
     the text is cut at its first NUL -/
 def parseText (env : NumEnv) (s : Bytes) : Option JVal := parseCStr env (cstr s)
 
+/-! ### the parser with `input_buffer->depth` as STATE (as the C keeps it)
+
+`parseValue` above passes the nesting depth as a parameter, so "children at depth+1, back at depth
+afterwards" holds by construction.  The C code keeps one counter in the parse buffer: `depth++` after
+the limit check in parse_array / parse_object, `depth--` at `success:` (reached both by the empty
+container's `goto success` and by falling out of the loop).  The functions below transcribe exactly
+that: they return the counter's value on exit.  `Proofs/C11/Depth.lean` proves the counter is
+balanced (exit value = entry value on every successful path) and that the two parsers agree, i.e.
+acceptance depends only on the true nesting depth.  The driver runs this version. -/
+
+mutual
+def parseValueS (env : NumEnv) : Nat → Nat → Bytes → Option (JVal × Bytes × Nat)
+  | 0, _, _ => none
+  | f + 1, d, s =>
+    if startsWith [110, 117, 108, 108] s then some (.null, s.drop 4, d)
+    else if startsWith [102, 97, 108, 115, 101] s then some (.bool false, s.drop 5, d)
+    else if startsWith [116, 114, 117, 101] s then some (.bool true, s.drop 4, d)
+    else match s with
+      | [] => none
+      | c :: r =>
+        if c = 34 then
+          match parseString s with
+          | some (b, rest) => some (.str b, rest, d)
+          | none => none
+        else if c = 45 ∨ isDigit c then
+          match parseNumber env s with
+          | some (n, rest) => some (.num n, rest, d)
+          | none => none
+        else if c = 91 then
+          if d ≥ Gen.CJSON_NESTING_LIMIT then none else
+          -- input_buffer->depth++
+          match skipWs r with
+          | [] => none
+          | c1 :: r1 =>
+            if c1 = 93 then some (.arr [], r1, d + 1 - 1)          -- goto success: depth--
+            else match parseElemsS env f (d + 1) (c1 :: r1) with
+              | some (xs, rest, d') => some (.arr xs, rest, d' - 1) -- success: depth--
+              | none => none
+        else if c = 123 then
+          if d ≥ Gen.CJSON_NESTING_LIMIT then none else
+          match skipWs r with
+          | [] => none
+          | c1 :: r1 =>
+            if c1 = 125 then some (.obj [], r1, d + 1 - 1)
+            else match parseMembersS env f (d + 1) (c1 :: r1) with
+              | some (ms, rest, d') => some (.obj ms, rest, d' - 1)
+              | none => none
+        else none
+def parseElemsS (env : NumEnv) : Nat → Nat → Bytes → Option (List JVal × Bytes × Nat)
+  | 0, _, _ => none
+  | f + 1, d, s =>
+    match parseValueS env f d (skipWs s) with
+    | none => none
+    | some (v, r, d1) =>
+      match skipWs r with
+      | [] => none
+      | c :: r2 =>
+        if c = 44 then
+          match parseElemsS env f d1 r2 with
+          | some (xs, rest, d2) => some (v :: xs, rest, d2)
+          | none => none
+        else if c = 93 then some ([v], r2, d1)
+        else none
+def parseMembersS (env : NumEnv) : Nat → Nat → Bytes → Option (List (Bytes × JVal) × Bytes × Nat)
+  | 0, _, _ => none
+  | f + 1, d, s =>
+    match parseString (skipWs s) with
+    | none => none
+    | some (k, r0) =>
+      match skipWs r0 with
+      | [] => none
+      | c0 :: r1 =>
+        if c0 ≠ 58 then none else
+        match parseValueS env f d (skipWs r1) with
+        | none => none
+        | some (v, r, d1) =>
+          match skipWs r with
+          | [] => none
+          | c :: r2 =>
+            if c = 44 then
+              match parseMembersS env f d1 r2 with
+              | some (ms, rest, d2) => some ((k, v) :: ms, rest, d2)
+              | none => none
+            else if c = 125 then some ([(k, v)], r2, d1)
+            else none
+end
+
+/-- `cJSON_Parse` with the depth counter as state (starts at 0) -/
+def parseCStrS (env : NumEnv) (s : Bytes) : Option JVal :=
+  let s1 := skipBom s
+  match parseValueS env (2 * s1.length + 2) 0 (skipWs s1) with
+  | some (v, _, _) => some v
+  | none => none
+
+/-- `aws_json_value_new_from_string`, depth counter as state -/
+def parseTextS (env : NumEnv) (s : Bytes) : Option JVal := parseCStrS env (cstr s)
+
 /-! ### access layer of json.c -/
 
 inductive Err where
